@@ -128,6 +128,17 @@ class Analyzer:
             m = n["method"]
             if m in ("cmp", "partial_cmp", "max", "min") and not re.search(r"\.0\b|len\(\)", src.t(n["receiver"])):
                 total = add(total, (1, 1))
+            # std algorithms that compare: a sort is n log n comparisons, a binary search log n, an extremum over an
+            # iterator (not over a literal array, which R3 covers below) n
+            if m in ("sort", "sort_by", "sort_by_key", "sort_unstable", "sort_unstable_by", "sort_unstable_by_key", "sort_by_cached_key",
+                     "select_nth_unstable", "select_nth_unstable_by", "select_nth_unstable_by_key", "is_sorted", "is_sorted_by", "is_sorted_by_key", "dedup", "dedup_by", "dedup_by_key"):
+                total = add(total, (4 if m.startswith("sort") else 3, 0))
+            if m in ("binary_search", "binary_search_by", "binary_search_by_key", "partition_point"):
+                total = add(total, (2, 0))
+            if m in ("max_by", "min_by", "max", "min", "max_by_key", "min_by_key", "position", "rposition", "find", "all", "any", "filter", "take_while", "skip_while", "contains") \
+                    and not [x for x in gen.walk_tree(n) if x["k"] == "Array"] \
+                    and re.search(r"\.(iter|iter_mut|into_iter|values|keys|drain)\(", src.t(n["receiver"])) and PRIO_WORDS.search(src.t(n["s"], n["e"]) if "s" in n else ""):
+                total = add(total, (3, 0))
             if m in ("min_by_key", "max_by_key"):
                 arr = [x for x in gen.walk_tree(n) if x["k"] == "Array"]
                 kk = len(arr[0]["elems"]) if arr else 2
